@@ -308,6 +308,24 @@ impl Sys {
                     AResp::NoJoinAccept => Some(false),
                     _ => None,
                 };
+                // Class C: the continuous reception the device returns to after a successful join listens with the
+                // RX2 parameters of the session the JoinAccept defines (data rate from DLSettings when the region
+                // defines it, regional default frequency)
+                if joined_resp == Some(true) && st.class_c {
+                    let after = &st.after;
+                    let (def_f, def_dr) = rr::rx2_default(&region);
+                    let want_dr = after.rx2_data_rate.unwrap_or(def_dr);
+                    let want_f = after.rx2_frequency.unwrap_or(def_f);
+                    if let Some(AOp::SetupRx { rf, single_ms: None, .. }) = st.ops.iter().rev().find(|o| matches!(o, AOp::SetupRx { .. }))
+                        && let Some(d) = rr::dr(&region, want_dr)
+                        && ((rf.sf, rf.bw) != (d.sf, d.bw) || rf.freq != want_f)
+                    {
+                        out.push(V {
+                            sig: format!("C11|{front}|classc-listening-after-join-not-on-the-session-rx2-parameters"),
+                            what: format!("{region}: after JoinSuccess the device listens on {} Hz SF{}/{}; the session's RX2 is {want_f} Hz DR{want_dr} (SF{}/{})", rf.freq, rf.sf, rf.bw, d.sf, d.bw),
+                        });
+                    }
+                }
             }
         }
         self.earlier.extend(delivered.into_iter().filter(|b| b.len() == 17 || b.len() == 33));
